@@ -162,8 +162,7 @@ META("C06",
      note=COMMON_NOTE + "Also covered: every builder callback under allocation failure (refused leaf/opener/chunk: flag raised, nothing "
           "left allocated, nothing changed), cbor_serialize_alloc for leaves and definite strings (NULL buffer, size 0). "
           "cbor_copy of composite kinds is covered through its extracted regions (refused container, refused member copy, refused growth: everything made so far released once). Composition over a whole tree / input is by the steps (A1, A2).",
-     trusted=[A1, A2], uncovered=["cbor_load as a whole under allocation failure (loop rule over its proved regions: A2)",
-                                  "cbor_serialize_alloc of composite items"],
+     trusted=[A1, A2], uncovered=["cbor_load as a whole under allocation failure (loop rule over its proved regions: A2)"],
      meta=[])
 
 META("C07",
@@ -175,8 +174,9 @@ META("C07",
      note=COMMON_NOTE + "Agreement between cbor_serialize and cbor_serialized_size for composite nodes follows from both being proved "
           "equal to header + sum over the same children; the two sums are related by a meta-argument (same children, same order; "
           "both proofs establish the order). The dispatcher cbor_serialize is proved per node kind; cbor_serialize_alloc is proved "
-          "(exact block, its CBOR_ASSERT(written == size) discharged) for leaves and definite strings.",
-     trusted=[A1], uncovered=["cbor_serialize_alloc of composite items", "machine-checked equality of the two child sums at arbitrary fan-out"],
+          "(exact block, its CBOR_ASSERT(written == size) discharged) with exact contracts for leaves and definite strings and, for an "
+          "item of any kind, over the hereditary size/serialization contracts USIZE (ser_alloc_any).",
+     trusted=[A1], uncovered=["machine-checked equality of the two child sums at arbitrary fan-out"],
      meta=["equality of the two folds over the same children"])
 
 META("C09",
@@ -982,6 +982,15 @@ for kind, extra in (("INT", ["VERIF_INT_TYPE=CBOR_TYPE_NEGINT"]), ("FLOAT_CTRL",
       replace=["cbor_serialized_size", "cbor_serialize"], must_exist=[r"cbor_serialize_alloc\.postcondition\.3"], min_covers=3,
       cost=60, timeout=900, object_bits=10)
 
+# cbor_serialize_alloc for an item of ANY kind (composites included), lemma style over the hereditary twin contracts
+P(name="ser_alloc_any", props={"C06": SAFETY, "C07": ["cbor_assert"], "C13": [], "C01": SAFETY}, lib=SERLIB, stubs=SER_STUBS,
+  contracts=SER_CONTRACTS, harness="harness/serialize.c", defines=["SER_KIND_ANY", "SER_ALLOC_ANY", "SER_FN=unused"], enforce=None,
+  also_verified=["cbor_serialize_alloc"],
+  replace=["cbor_serialized_size/cbor_serialized_size__child", "cbor_serialize/cbor_serialize__child"], min_covers=4, cost=30,
+  timeout=900, object_bits=10,
+  assumed=["cbor_serialized_size__child / cbor_serialize__child: size == USIZE(item), serialization == USIZE(item) when it fits "
+           "(established per node kind by the ser_size_* / ser_* proofs; A1)"])
+
 # definite string heads: chunk of an open chunked string of the same major type, or a complete item
 STRCB_REPLACE = ["_cbor_builder_append/_cbor_builder_append__handover", "cbor_new_definite_bytestring", "cbor_new_definite_string",
                  "cbor_bytestring_add_chunk/cbor_bytestring_add_chunk__cb", "cbor_string_add_chunk/cbor_string_add_chunk__cb",
@@ -1047,14 +1056,14 @@ P(name="ser_map_lemma", props={"C03": ["loop"], "C07": ["loop"], "C18": [], "C01
   must_exist=[r"cbor_serialize_map\.loop_invariant_step\.\d+"], min_covers=4, cost=200, timeout=1800, object_bits=10, mem_gb=20)
 
 # cbor_decref on a map, lemma style: loop contract over the pair storage + harness assertions, frame not enforced
-P(name="decref_map_lemma", tier="thorough", props={"C04": ["loop"], "C13": [], "C01": SAFETY + ["loop"], "C06": []},
+P(name="decref_map_lemma", props={"C04": ["loop"], "C13": [], "C01": SAFETY + ["loop"], "C06": []},
   lib=ITEMLIB, stubs=ITEM_STUBS + ["stubs/decref_ghost.c"], contracts=DECREF_CONTRACTS, harness="harness/decref.c",
   defines=["KIND_MAP", "VERIF_FIXED_NODES"], enforce=None, also_verified=["cbor_decref"], twins={"cbor_decref": "cbor_decref__child"},
   replace=["cbor_decref__child"], loops="loops/decref.json", loop_fingerprint={"cbor_decref": 4},
   must_exist=[r"cbor_decref\.loop_invariant_step\.\d+"], min_covers=2, cost=200, timeout=2400, object_bits=10, mem_gb=24, expect_gb=16)
 
-# quick-tier stand-in for the proof above (which needs 13 min / 15 GB and lives in the thorough tier): same harness and loop
-# contract, maps of at most 2 pairs
+# (attempted quick stand-in for the proof above, maps of at most 2 pairs: out of memory at 12 GB within 2 min - the cost is
+# not the capacity; parked.  The unbounded proof itself runs in the quick tier, for C04 only: 13 min / 15 GB)
 P(tier="experimental", name="decref_map_lemma_bounded", kind="bounded", bound="maps with at most 2 pairs (capacity <= 2)", props={"C04": ["loop"], "C01": SAFETY + ["loop"]},
   lib=ITEMLIB, stubs=ITEM_STUBS + ["stubs/decref_ghost.c"], contracts=DECREF_CONTRACTS, harness="harness/decref.c",
   defines=["KIND_MAP", "VERIF_FIXED_NODES", "MAP_BOUND=2", "VERIF_MAP_CAP=2"], enforce=None, also_verified=["cbor_decref"],
